@@ -444,6 +444,17 @@ class CHECK(Check):
     def exhaustive(self, tier):
         import random
         rng = random.Random(1234)
+        # callers: every pair of distinct values of each single-column pool in every container that can hold it
+        for kind, pool, conts in (("s", CALLER_CELLS["s"], ["flat", "series", "df", "ndobj", "nd1d"]),
+                                  ("i", CALLER_CELLS["i"], ["flat", "series", "df", "ndobj", "nd1d"]),
+                                  ("f", CALLER_CELLS["f"], ["flat", "series", "df", "ndobj", "nd1d"]),
+                                  ("m", ["1", 1, 1.0, "1.0", 2, "a", True], ["series", "df", "ndobj"])):
+            for a, b in itertools.combinations(pool, 2):
+                for cont in conts:
+                    rows = [[a], [b], [a], [b]]
+                    yield {"kind": "callers", "cols": [kind], "container": cont, "rows": rows, "y": [0, 0, 1, 1],
+                           "scores": ["1/8", "1/2", "3/4", "1/4"], "query": [[0, "1/2"], [1, "1/2"], [2, "1/8"], [3, "7/8"]],
+                           "moment": "DP", "ctrl": None, "ctrl_cols": 0, "to": "demographic_parity", "qcontainer": cont}
         alltup = list(itertools.product(_VALS2, repeat=2))
         for container in ("df", "ndobj", "ndU", "list"):
             c = self._make(rng, ["s", "s"], container, alltup, extra=0)
